@@ -97,9 +97,19 @@ def cli_case(case):
         a, b = root / "a", root / "b"
         e2e.write_project(a, files); e2e.write_project(b, files)
         snap = e2e.snapshot(a)
-        rd = e2e.run(a, ["--codemod-include", cid, "--dry-run"])
+        opts = list(case.get("opts") or [])
+        if case.get("sast"):
+            # a tool-result driven codemod: the result file is the same for both runs
+            it = case["sast"]
+            for d in (a, b):
+                (d / "code.py").write_text(it["code"])
+            snap = e2e.snapshot(a)
+            rf = root / "tool-results.json"
+            rf.write_text(json.dumps(it["results"]))
+            opts += [it["flag"], str(rf)]
+        rd = e2e.run(a, ["--codemod-include", cid, "--dry-run"] + opts)
         same = e2e.snapshot(a) == snap
-        rr = e2e.run(b, ["--codemod-include", cid])
+        rr = e2e.run(b, ["--codemod-include", cid] + opts)
         nd, nr = e2e.normalise_report(rd["report"]), e2e.normalise_report(rr["report"])
         changed_real = e2e.snapshot(b) != snap
         return {"rc": [rd["rc"], rr["rc"]], "tree_same": same, "report_same": json.dumps(nd, sort_keys=True) == json.dumps(nr, sort_keys=True),
@@ -119,6 +129,15 @@ def search(ctx):
         for m in ["requirements.txt", "setup.cfg"] if not ctx.thorough else ["requirements.txt", "pyproject.toml", "setup.py", "setup.cfg"]:
             cases.append({"codemod": cid, "manifest": m, "seed": rng.randint(0, 10**9)})
     cases.append({"codemod": "pixee:python/use-defusedxml", "manifest": "setup.py", "trigger_in_manifest": True, "seed": rng.randint(0, 10**9)})
+    # other options of the command line must not matter to either clause
+    OPTS = [["--max-workers", "3"], ["--path-exclude", "nomatch/**"], ["--verbose"], ["--path-include", "**/*.py,*.py"], ["--project-name", "p"], ["--log-format", "json"]]
+    for c in cases:
+        if rng.random() < 0.5:
+            c["opts"] = [x for o in rng.sample(OPTS, rng.randint(1, 2)) for x in o]
+    items = json.loads((common.VERIF / "harness" / "corpus" / "sast_seeds.json").read_text())
+    rng.shuffle(items)
+    for it in items[: ctx.pick(4, 20)]:
+        cases.append({"codemod": it["codemod"], "manifest": rng.choice([None, "requirements.txt"]), "sast": it, "seed": rng.randint(0, 10**9)})
     for enc in ["cp1251", "utf-16", "latin-1"]:
         cases.append({"codemod": rng.choice(["pixee:python/use-defusedxml", "pixee:python/flask-enable-csrf-protection"]), "manifest": "requirements.txt",
                       "legacy": enc, "seed": rng.randint(0, 10**9)})
